@@ -306,6 +306,46 @@ def check_clobber(ctx, case, res, scripts=None):
                             observed_ids=[f["id"] for f in a.get("features", [])], expected_ids=[f["id"] for f in b.get("features", [])],
                             observed_counters=a.get("pauto"), expected_counters=b.get("pauto"),
                             observed_directives=a.get("directives"), expected_directives=b.get("directives"))
+        if case.get("feature_form"):
+            # ... and once more with the new input handed over as Feature OBJECTS (a list, a one-shot generator, or a
+            # FeatureDB holding them): such an input has no directive lines, so the forced result holds the new features
+            # and NO directives - nothing of the old database (nor of any earlier import of this process)
+            from gffutils.feature import feature_from_line
+            import warnings
+            flines = [l for l in new_lines if l and not l.startswith("#")]
+            feats = [feature_from_line(l) for l in flines]
+            form = case["feature_form"]
+            src_db = None
+            if form == "FeatureDB":
+                src_db, _ = dbside.py_create(os.path.join(rw.inputs, "in%d.txt" % rw._n), cfg,
+                                             dbfn=os.path.join(elsewhere, "src_%d.sqlite3" % CLOBBER[0]))
+            data = feats if form == "list" else (f for f in feats) if form == "generator" else src_db
+            res.evaluations += 1
+            res.count("clobber_new_input_as_" + form)
+            if data is not None:
+                try:
+                    with warnings.catch_warnings():
+                        warnings.simplefilter("ignore")
+                        d4 = gffutils.create_db(data, dbfn, force=True, **cfg.create_kwargs())
+                    got_dirs, got_n = list(d4.directives), len(list(d4.all_features()))
+                    d4.conn.commit(); d4.conn.close()
+                    d5 = gffutils.FeatureDB(dbfn)
+                    got_dirs2 = list(d5.directives)
+                    d5.conn.close()
+                    if got_dirs or got_dirs2 or got_n != len(flines):
+                        common.fail(res, case, "force_not_only_new_input",
+                                    "create_db(force=True) over an existing database, the new input given as Feature objects "
+                                    "(%s), does not give exactly the database of the new input alone" % form,
+                                    observed_directives=got_dirs or got_dirs2, expected_directives=[],
+                                    observed_features=got_n, expected_features=len(flines))
+                except Exception as ex:
+                    if fresh is not None:
+                        common.fail(res, case, "force_feature_input_raised",
+                                    "create_db(force=True) with the new input as Feature objects raised %r" % ex,
+                                    error=dbside.err_name(ex))
+                finally:
+                    if src_db is not None:
+                        src_db.conn.close()
         if case.get("also_failing_import"):
             # an import that fails (duplicate ID): the property says nothing; World.createDb takes what is left as given
             rw.create(name, new_lines + new_lines[-1:], cfg, True)
@@ -348,7 +388,8 @@ def run(ctx):
         case = {"scenario": "clobber", "name": "c19_%d%s" % (i, EXTENSIONS[i % len(EXTENSIONS)]),
                 "old": clobber_input(r, "o"), "input": clobber_input(r, "n"), "first_force": i % 3 == 1,
                 "also_failing_import": i % 5 == 0, "config": dbside.Cfg().to_json(),
-                "old_delete": "all" if (i == 1 or i % 4 == 3) else "some" if i % 8 == 6 else None}
+                "old_delete": "all" if (i == 1 or i % 4 == 3) else "some" if i % 8 == 6 else None,
+                "feature_form": [None, "list", "generator", "FeatureDB"][i % 4] if i % 5 else None}
         if i == 1:
             # an emptied old database that keeps directives and non-trivial id counters (ID-less exons below a transcript)
             case["old"] = ["##gff-version 3", "##sequence-region chrOLD 1 5000",
